@@ -32,10 +32,8 @@ def Consistent (X : ExpTab) (F : Nat) (D : Nat → Row) : Est → List Op → Pr
 
 theorem refPolicy_mergeClosed_exact (X : ExpTab) (D : Nat → Row) (cfg : Cfg) :
     MergeClosed (refPolicy X) (Exact D) cfg := by
-  intro c s hc hs ha
-  rw [refPolicy_accept] at ha
-  simp only [Bool.and_eq_true, decide_eq_true_eq] at ha
-  exact exact_merge D c s hc hs ha.1
+  intro c s hc hs _
+  exact exact_merge D c s hc hs
 
 theorem runOK_of_consistent (X : ExpTab) (F : Nat) (D : Nat → Row) : ∀ (ops : List Op) (e : Est),
     Consistent X F D e ops → RunOK (refPolicy X) F (Exact D) e ops
@@ -88,18 +86,23 @@ theorem C02_majority (D : Nat → Row) (c : Clu) (h : Exact D c) (h2 : 2 ≤ c.n
 
 /-- **no wrap-around at any width**: on exact summaries the width-limited arithmetic of a merge
 equals unbounded arithmetic (in particular across 255/256, 65 535/65 536 and 2^32-1/2^32) -/
-theorem C02_no_wrap_merge (D : Nat → Row) (c s : Clu) (hc : Exact D c) (hs : Exact D s) (hn : c.n + s.n < 2 ^ 64) :
+theorem C02_no_wrap_merge (D : Nat → Row) (c s : Clu) (hc : Exact D c) (hs : Exact D s) :
     (c.merge s).ls = addLs c.ls s.ls ∧ (c.merge s).n = c.n + s.n ∧ (c.merge s).w = minSafe (c.n + s.n) :=
-  ⟨(merge_unbounded D c s hc hs hn).1, (merge_unbounded D c s hc hs hn).2, rfl⟩
+  ⟨(merge_unbounded D c s hc hs).1, (merge_unbounded D c s hc hs).2, rfl⟩
 
 /-- the same for the in-place update of a tracking entry -/
-theorem C02_no_wrap_update (D : Nat → Row) (c s : Clu) (hc : Exact D c) (hs : Exact D s) (hn : c.n + s.n < 2 ^ 64) :
+theorem C02_no_wrap_update (D : Nat → Row) (c s : Clu) (hc : Exact D c) (hs : Exact D s) :
     (c.update s).ls = addLs c.ls s.ls ∧ (c.update s).n = c.n + s.n ∧ (c.update s).w = minSafe (c.n + s.n) :=
-  ⟨(update_unbounded D c s hc hs hn).1, (update_unbounded D c s hc hs hn).2, rfl⟩
+  ⟨(update_unbounded D c s hc hs).1, (update_unbounded D c s hc hs).2, rfl⟩
 
 /-- the chosen width is the narrowest unsigned width that holds the count -/
 theorem C02_narrowest (n : Nat) (h : n < 2 ^ 64) (w : W) (hw : n < 2 ^ w.bits) : (minSafe n).bits ≤ w.bits :=
   minSafe_narrowest n h w hw
+
+/-- below 2^64 the counter is one of the four NumPy widths (never the model's unbounded stand-in
+for the `ValueError` of `min_safe_uint`) -/
+theorem C02_width_real (n : Nat) (h : n < 2 ^ 64) : minSafe n ≠ .big :=
+  (minSafe_ne_big_iff n).mpr h
 
 /-! Non-vacuity: a cluster crossing the 255/256 boundary. -/
 example : (Clu.merge { n := 255, w := .u8, ls := [255, 0], ids := List.range 255, cent := [true, false] }
